@@ -258,6 +258,38 @@ CLAIMED["C18"] = dict(
     technique="Lean 4 proof (characterisation of the model by induction over the expression list / edge fold) + differential correspondence + executable-spec oracle (flat CFG) on the real output",
     design="DESIGN.md#c18",
 )
+CLAIMED["C12"] = dict(
+    engine="E-asm",
+    text="Lean theorems for every target, chunk list and event stream: in every section of a successful result the "
+    "blocks sit end to end from offset 0 to the end of the data and no block but the last is empty (invariant by "
+    "induction over the events, then through _remove_empty_blocks / _convert_data_blocks / "
+    "_remove_trailing_empty_block); a return, call or branch ends its block (the step ends with _split_block); the "
+    "edges added are exactly the ones the kind demands (Return to a proxy allocated by the step and no fallthrough; "
+    "one Branch/Call edge, conditional iff jcc, direct iff not indirect, to a proxy allocated by the step when "
+    "indirect, followed by a Fallthrough to the fresh block exactly for call and jcc); a label's block starts at "
+    "the end of the data with a fallthrough edge from the current block. Tie: the real Assembler on generated texts "
+    "for X64 (AT&T, Intel), IA32, ARM64, MIPS32, ELF and PE, trivially_unreachable on and off; its _Streamer entry "
+    "points are wrapped to record the event stream, the model is run on it and the two Results compared. Oracle: "
+    "capstone's decoding of the bytes against the tokens, the Lean specification asm_check over the text on the "
+    "real Result, one expression per symbolic operand with symbol, addend, size and attributes.",
+    technique="Lean 4 proof (invariant by induction over events and finalisation phases) + differential correspondence on the recorded event stream + executable-spec oracle and independent disassembler on the real output",
+    design="DESIGN.md#c12",
+)
+CLAIMED["C13"] = dict(
+    engine="E-asm",
+    text="Lean theorems for every target, state and event list: lookup order (a label of the text first, then the "
+    "module's symbol, which is used as it is); an unknown name is UndefSymbolError unless undefined symbols are "
+    "allowed, then exactly one proxy-backed symbol is created and a second mention finds it; the pre-pass refuses a "
+    "label whose name is a label, an undefined symbol or a module symbol already and otherwise adds exactly the "
+    "chunk's labels in order; with the suffix _<id> copies of a temporary label with different patch ids get "
+    "different names and different labels of one copy stay different; chunks_eq_whole: assembling c1 then c2 "
+    "reaches exactly the states assembling c1 ++ c2 reaches, for every starting state, when c1 mentions no label "
+    "c2 defines. Tie: the real Assembler on generated and malformed texts, whole and in 2-4 chunks, against the "
+    "model and against itself (chunked vs whole); direct inspection of the Results (symbol identity, one symbol per "
+    "name, error classes); the same patch inserted 1-6 times through RewritingContext.",
+    technique="Lean 4 proof (frame lemma for the streamer + characterisation of the pre-pass) + differential correspondence + direct oracle on the real output and on real rewrites",
+    design="DESIGN.md#c13",
+)
 
 ALL = ["C%02d" % i for i in range(1, 21)]
 
@@ -302,6 +334,7 @@ def main():
             {"name": "E-modify", "path": "lean/GtirbVerif/Model/IR", "serves_properties": ["C01", "C02", "C03", "C04", "C05", "C06", "C07", "C08", "C09", "C11"], "kind_free_text": "abstract GTIRB IR + Lean models of edit_byte_interval, split_block, are_joinable/join_blocks, remove_block, insert, delete, _cleanup_modified_blocks, the offset loop of _apply_modifications; listing specification (Spec/Listing*.lean)"},
             {"name": "E-intervals", "path": "lean/GtirbVerif/Model/Intervals", "serves_properties": ["C10"], "kind_free_text": "Lean model of split_byte_interval / join_byte_intervals with the round-trip theorem"},
             {"name": "E-symbols", "path": "lean/GtirbVerif/Model/Symbols", "serves_properties": ["C19", "C18"], "kind_free_text": "Lean models of delete_symbols and retarget_symbol_uses"},
+            {"name": "E-asm", "path": "lean/GtirbVerif/Model/Asm", "serves_properties": ["C12", "C13"], "kind_free_text": "Lean model of the assembler's streamer (_SymbolCreator, _Streamer, Assembler.finalize) over the event stream of LLVM's parser; result specification Spec/AsmCheck.lean"},
             {"name": "E-dwarf", "path": "lean/GtirbVerif/Model/Dwarf", "serves_properties": ["C14", "C15"], "kind_free_text": "Lean model of dwarf/_encoders,_encodable,expr,cfi,cfi_eval + regenerated tables"},
         ],
         "checks": checks,
